@@ -397,6 +397,51 @@ def ast_contains(root: ast.AST, pattern_src: str) -> bool:
     return False
 
 
+def ctor_param_field(py, cls: str, param: str) -> Optional[str]:
+    """Field in which __init__ (following super().__init__ positionally / by keyword) stores `param`."""
+    r = py.resolve_method(cls, "__init__")
+    if not r:
+        return None
+    ci, fn = r
+    for st in ast.walk(fn):
+        if isinstance(st, (ast.Assign, ast.AnnAssign)):
+            tgt = st.targets[0] if isinstance(st, ast.Assign) else st.target
+            val = st.value
+            if is_self_attr(tgt) and isinstance(val, ast.Name) and val.id == param:
+                return tgt.attr
+    for st in ast.walk(fn):
+        if isinstance(st, ast.Call) and isinstance(st.func, ast.Attribute) and st.func.attr == "__init__" and isinstance(st.func.value, ast.Call) and isinstance(st.func.value.func, ast.Name) and st.func.value.func.id == "super":
+            for c2 in py.mro(ci.name)[1:]:
+                if "__init__" in c2.methods:
+                    ps = [x.arg for x in c2.methods["__init__"].args.args][1:]
+                    for i, a in enumerate(st.args):
+                        if isinstance(a, ast.Name) and a.id == param and i < len(ps):
+                            return ctor_param_field(py, c2.name, ps[i])
+                    for k in st.keywords:
+                        if isinstance(k.value, ast.Name) and k.value.id == param and k.arg:
+                            return ctor_param_field(py, c2.name, k.arg)
+                    break
+    return None
+
+
+_ROLE_CACHE: Dict[Tuple[int, str, int], Optional[str]] = {}
+
+
+def ctor_field(py, cls: str, idx: int, default: str) -> str:
+    """Name of the field that keeps the idx-th positional constructor argument of `cls` (private attributes may be renamed
+    freely: the rules ask for the role, not for the spelling)."""
+    key = (id(py), cls, idx)
+    if key not in _ROLE_CACHE:
+        r = py.resolve_method(cls, "__init__")
+        out = None
+        if r:
+            ps = [a.arg for a in r[1].args.args][1:]
+            if idx < len(ps):
+                out = ctor_param_field(py, cls, ps[idx])
+        _ROLE_CACHE[key] = out
+    return _ROLE_CACHE[key] or default
+
+
 def resolve_alias(fn: ast.AST, e: ast.AST, depth: int = 0) -> ast.AST:
     """Follow a local name to the expression it is bound to, when the function binds it exactly once by a plain
     assignment (x = <expr>); other names (parameters, loop variables, re-bound names) are returned unchanged."""
